@@ -1,6 +1,8 @@
 """C03  Parsed output is a fixed point: re-reading a written file changes nothing."""
 from __future__ import annotations
 
+import re
+
 import shutil
 
 from harness import gen, native, wire
@@ -98,12 +100,13 @@ def gen_source(rng):
     pos = rng.randrange(0, len(lines) + 1) if lines else 0
     # keep statements at top level: insert only at depth 0 boundaries
     depth = 0
-    tops = [0]
+    tops = [0] if not (lines and lines[0].lstrip().startswith("{")) else []
     for i, l in enumerate(lines):
-        depth += l.count("{") - l.count("}") if not l.lstrip().startswith(("//", "/*")) and "'" not in l and '"' not in l else 0
-        if depth == 0:
-            tops.append(i + 1)
-    pos = rng.choice(tops)
+        code = re.sub(r"/\*.*?\*/", "", l).split("//")[0]          # braces inside comments do not count
+        depth += code.count("{") - code.count("}") if not l.lstrip().startswith(("//", "/*")) and "'" not in code and '"' not in code else 0
+        if depth == 0 and not (i + 1 < len(lines) and lines[i + 1].lstrip().startswith("{")):
+            tops.append(i + 1)          # never between a key and the brace that opens its dict on the next line
+    pos = rng.choice(tops or [len(lines)])
     if lines and lines[0].startswith("/*-"):
         pos = max(pos, 1)
     lines[pos:pos] = extra
